@@ -151,7 +151,10 @@ theorem roundBE_spec (m : Mode) (neg : Bool) (ds : List Nat) (sig : Nat) (hds : 
     (h1 : 1 ≤ sig) (h2 : sig < ds.length) :
     digitsToNat (roundBE m neg ds sig).1 * 10 ^ (roundBE m neg ds sig).2 =
       roundNat m neg (digitsToNat ds) (ds.length - sig) * 10 ^ (ds.length - sig) ∧
-    (∀ d ∈ (roundBE m neg ds sig).1, d < 10) ∧ ds.length - sig ≤ (roundBE m neg ds sig).2 := by
+    (∀ d ∈ (roundBE m neg ds sig).1, d < 10) ∧ ds.length - sig ≤ (roundBE m neg ds sig).2 ∧
+    (roundBE m neg ds sig).1 ≠ [] ∧
+    ((roundBE m neg ds sig).1.length + (roundBE m neg ds sig).2 = ds.length ∨
+     ((roundBE m neg ds sig).1.length = 1 ∧ (roundBE m neg ds sig).2 = ds.length)) := by
   -- the pieces of the digit string
   obtain ⟨k, hk⟩ : ∃ k, ds.length - sig = k := ⟨_, rfl⟩
   have hk1 : 1 ≤ k := by omega
@@ -216,7 +219,8 @@ theorem roundBE_spec (m : Mode) (neg : Bool) (ds : List Nat) (sig : Nat) (hds : 
   have hlen : trailing.length + 1 = k := by omega
   by_cases hlt : sd + up < 10
   · rw [if_pos hlt]
-    refine ⟨?_, ?_, by simp; omega⟩
+    have hkl0 : (ds.take (sig - 1)).length = sig - 1 := by simp; omega
+    refine ⟨?_, ?_, by simp; omega, by simp, Or.inl (by simp [hkl0]; omega)⟩
     · simp only [beVal_append, beVal_singleton, List.length_singleton, pow_one, hlen]; ring
     · intro d hd
       rcases List.mem_append.mp hd with h | h
@@ -242,7 +246,7 @@ theorem roundBE_spec (m : Mode) (neg : Bool) (ds : List Nat) (sig : Nat) (hds : 
       simp only [List.reverse_nil, List.length_nil, Nat.sub_zero] at hvk hj
       have hv0 : digitsToNat ([] : List Nat) = 0 := rfl
       rw [hv0] at hvk
-      refine ⟨?_, by simp, by simp; omega⟩
+      refine ⟨?_, by simp, by simp; omega, by simp, Or.inr ⟨by simp, by simp; omega⟩⟩
       simp only [beVal_singleton, hlen]
       have hj' : j = sig - 1 := by omega
       have : (digitsToNat (ds.take (sig - 1)) * 10 + sd + up) = 10 ^ sig := by
@@ -259,7 +263,9 @@ theorem roundBE_spec (m : Mode) (neg : Bool) (ds : List Nat) (sig : Nat) (hds : 
       simp only [List.reverse_cons, List.length_append, List.length_reverse, List.length_singleton] at hvk hj
       have hvs : digitsToNat (restRev.reverse ++ [last]) + 1 = digitsToNat (restRev.reverse ++ [last + 1]) := by
         simp only [beVal_append, beVal_singleton, List.length_singleton, pow_one]; ring
-      refine ⟨?_, ?_, by simp; omega⟩
+      have hs2' : restRev.length + 1 ≤ sig - 1 := by
+        have := hs2; rw [hst] at this; simpa [hkl] using this
+      refine ⟨?_, ?_, by simp; omega, by simp, Or.inl (by simp [hkl]; omega)⟩
       · simp only [List.length_cons, List.length_reverse]
         have hjj : (ds.take (sig - 1)).length - (restRev.length + 1) = j := by omega
         rw [hjj, ← hvs]
@@ -342,5 +348,9 @@ theorem roundAscii_eq_roundBE (m : Mode) (neg : Bool) (ds : List Nat) (sig : Nat
         have : last ∈ (ds.take (sig - 1)).reverse.dropWhile (· == 9) := by rw [hst]; simp
         exact hkept last (List.mem_reverse.mp ((List.dropWhile_sublist _).subset this))
       simp [charDigit_digitChar last hl]
+
+theorem natStr_eq_digitsBE (n : Nat) : natStr n = (digitsBE n).map digitChar := by
+  unfold natStr digitsBE
+  split <;> rfl
 
 end BigDec
